@@ -219,6 +219,30 @@ func (w *Worktree) Checkout(opts *CheckoutOptions) error {
 		return err
 	}
 
+	mode := MergeReset
+	if opts.Force {
+		mode = HardReset
+	} else if opts.Keep {
+		mode = SoftReset
+	}
+
+	// A checkout that is going to be refused because of unstaged changes must
+	// be refused before the branch is created and HEAD is moved, not after:
+	// Reset makes the same check, but by then both have already happened.
+	if mode == MergeReset {
+		cfg, err := w.r.Config()
+		if err != nil {
+			return err
+		}
+		unstaged, err := w.containsUnstagedChanges(cfg)
+		if err != nil {
+			return err
+		}
+		if unstaged {
+			return ErrUnstagedChanges
+		}
+	}
+
 	if opts.Create {
 		if err := w.createBranch(opts); err != nil {
 			return err
@@ -232,13 +256,8 @@ func (w *Worktree) Checkout(opts *CheckoutOptions) error {
 
 	ro := &ResetOptions{
 		Commit:     c,
-		Mode:       MergeReset,
+		Mode:       mode,
 		SparseDirs: opts.SparseCheckoutDirectories,
-	}
-	if opts.Force {
-		ro.Mode = HardReset
-	} else if opts.Keep {
-		ro.Mode = SoftReset
 	}
 
 	// For HardReset and KeepReset, capture the current tree BEFORE updating
